@@ -10,7 +10,7 @@ func init() {
 			"claim resets exactly the claimed position (or deletes it when it holds no shares) and truncates only via TruncateDecimal; the set of functions writing position and accumulator records.",
 		NotCovered:  []string{"claim = Σ growth × shares over a history as a number", "total shares = Σ position shares as an invariant over histories"},
 		Assumptions: []string{"osmoutils.MustSet/Get and the KV store are the effect primitives"},
-		MinObl:      52,
+		MinObl:      53,
 		Run:         runC15,
 	})
 }
@@ -95,6 +95,7 @@ func runC15(c *rules.Ctx) {
 
 	// DeletePosition
 	const DL = A + "DeletePosition"
+	c.NeverAfter(DL, "accum.AccumulatorObject.ClaimRewards", "accum.AccumulatorObject.GetPosition", "the position (its share count) is read before the final claim, which deletes the record of a position without shares")
 	c.CheckedCall(DL, "accum.AccumulatorObject.ClaimRewards", []string{"accum", "positionName"}, "rewards are claimed before deletion", "")
 	c.HasCall(DL, "storetypes.KVStore.Delete", []string{"accum.store", "accum.FormatPositionPrefixKey(accum.name,positionName)"}, true, "the position record disappears", "")
 	c.HasCall(DL, "sdkmath.LegacyDec.SubMut", []string{"accum.totalShares", "accum.AccumulatorObject.GetPosition(accum,positionName)#0.NumShares"}, true, "total shares shrink by the deleted position's shares", "")
